@@ -135,7 +135,8 @@ class Region:
 
 
 class Extractor:
-    def __init__(self, repo, contracts_dir):
+    def __init__(self, repo, contracts_dir, canary=False):
+        self.canary = canary     # vacuity probe: `assert(false)` at the start of every function under contract
         self.repo = repo
         self.cdir = contracts_dir
         self.out = []            # list of text pieces
@@ -616,6 +617,9 @@ class Extractor:
             f["ins"] = [("attr", None, 1, "#[verifier::external_body] /* assumed here, proved in another unit */\n", f["where"])] + \
                        [x for x in f["ins"] if x[0] in ("attr", "sig", "atstart")]
             f["assumed_elsewhere"] = True
+        if self.canary and f["kind"] == "fn" and not f.get("assumed_elsewhere") and body_open >= 0 \
+                and not any(k == "attr" and "external_body" in t for (k, _, _, t, _) in f["ins"]):
+            f["ins"] = list(f["ins"]) + [("atstart", None, 1, "        proof { assert(false); } // vacuity canary\n", f["where"])]
         for (kind, arg, nth, txt, where) in f["ins"]:
             if kind == "attr":
                 reg.add(toks[first_tok].start, toks[first_tok].start, txt, "ins", "attr")
@@ -766,8 +770,8 @@ class Extractor:
         self.fnmap.append(rec)
 
 
-def build_unit(repo, contracts_dir, unit, outdir):
-    ex = Extractor(repo, contracts_dir)
+def build_unit(repo, contracts_dir, unit, outdir, canary=False):
+    ex = Extractor(repo, contracts_dir, canary=canary)
     tpl = os.path.join(contracts_dir, "units", unit + ".vrs")
     ex.run_template(tpl)
     text = "".join(ex.out)
